@@ -326,6 +326,10 @@ def prelude(public):
         k = KINDS[code]
         out.append("Die %sFunktion gleich_%s mit dem Parameter x vom Typ %s, gibt %s zurück, macht:\n\tGib x zurück.\nUnd kann so benutzt werden:\n\t\"gleich_%s <x>\"\n"
                    % (pub, code, k.ddp, k.ret, code))
+    # a DDP function whose Wahrheitswert result comes out of a short-circuit: the argument form "calc" passes such a result on
+    out.append("Die %sFunktion kurz_W mit den Parametern l und t vom Typ Zahl und Text Referenz, gibt einen Wahrheitswert zurück, macht:\n"
+               "\tWenn l kleiner als 2 ist oder (die Länge von t) ungleich 1 ist, gib falsch zurück.\n\tGib wahr zurück.\n"
+               "Und kann so benutzt werden:\n\t\"kurz_W <l> <t>\"\n" % pub)
     return "\n".join(out)
 
 
@@ -552,6 +556,11 @@ def simulate(fn, call):
 def arg_expr(fn, call, i):
     a = call["args"][i]
     path = a.get("path")
+    if a.get("calc"):       # Wahrheitswert computed by a DDP function (optionally negated) instead of read from the variable
+        v = {x["name"]: x["value"] for x in call["vars"]}[a["var"]]
+        if a["calc"] == "calc":
+            return "(kurz_W %d %s_h)" % (2 if v else 1, a["var"])
+        return "(nicht (kurz_W %d %s_h))" % (1 if v else 2, a["var"])
     if not path:
         e = a["var"]
     elif path[0] == "elem":
@@ -576,6 +585,9 @@ def call_block(fn, n, call):
     stmts = []
     for v in call["vars"]:
         stmts += ddp_decl(v["kind"], v["name"], v["value"])
+    for a in call["args"]:
+        if a.get("calc"):
+            stmts.append('Der Text %s_h ist "x".' % a["var"])
     tag = "%s %d" % (name, n)
     stmts.append('Schreibe "B %s" auf eine Zeile.' % tag)
     expr = " ".join([name] + [arg_expr(fn, call, i) for i in range(len(fn["params"]))])
@@ -610,7 +622,7 @@ def call_block(fn, n, call):
 def param_label(fn, call, i):
     p = fn["params"][i]
     a = call["args"][i] if call else {}
-    form = "temp" if a.get("temp") else (a["path"][0] if a.get("path") else "var")
+    form = a.get("calc") or ("temp" if a.get("temp") else (a["path"][0] if a.get("path") else "var"))
     mode = "Referenz" if p["ref"] else ("value" if KINDS[p["kind"]].prim else "value/" + p.get("by", "keep"))
     return "%s/%s/%s" % (p["kind"], mode, form)
 
@@ -740,12 +752,19 @@ def gen_call(rng, fn, fi, n):
         if kind in FIELDOF:
             choices += ["field"] * 2
         form = rng.choice(choices)
+        calc = None
+        if kind == "W" and not p["ref"] and n % 3 != 2:     # call 0: result of a DDP function, call 1: its negation, call 2: variable/element/field
+            form, calc = "var", ("calc", "calcnot")[n % 3]
         arg = None
-        if form == "var" and kind in ref_vars and rng.random() < (0.25 if p["ref"] else 0.2):
+        if form == "var" and not calc and kind in ref_vars and rng.random() < (0.25 if p["ref"] else 0.2):
             arg = {"var": ref_vars[kind]}           # aliasing: same variable for two parameters
         elif form == "var":
             vars_.append({"name": nm, "kind": kind, "value": gen_value(rng, kind, extreme)})
             arg = {"var": nm}
+            if calc:
+                arg["calc"] = calc
+                if i % 2 == 0:
+                    vars_[-1]["value"] = calc == "calc"     # wahr from the function, falsch from its negation
             if p["ref"]:
                 ref_vars.setdefault(kind, nm)
         elif form == "elem":
@@ -799,5 +818,6 @@ def make_specs(rng, total_sigs, per_program, ncalls):
             for n in range(ncalls):
                 fn["calls"].append(gen_call(rng, fn, fi, n))
             fns.append(fn)
-        specs.append({"id": pi, "O": pi % 3, "variant": "import" if pi % 3 == 1 else "direct", "lib": "a" if pi % 4 == 3 else "c", "fns": fns})
+        specs.append({"id": pi, "O": pi % 3, "variant": "import" if pi % 3 == 1 else "direct", "lib": "a" if pi % 4 == 3 else "c",
+                      "ledger": pi % 4 != 2, "fns": fns})
     return specs, ncells, npairs
